@@ -12,292 +12,26 @@ import (
 func init() {
 	register(&propDef{
 		id: "C36", run: runC36, minOblig: 24,
-		explanation: "Decides connection-protocol structure in ssh/mux.go and ssh/channel.go: (reply gating) every delivery of a *Success/*Failure reply into mux.globalResponses / channel.msg from the read loop is a non-blocking select behind the true edge of the …Pending flag, and the flags are stored only by the two SendRequest methods; (open replies) channel state (remoteId, maxRemotePayload, window, channel-list removal) changes on OPEN_CONFIRMATION / OPEN_FAILURE only behind responseMessageReceived() == nil, which errors for inbound and already-decided channels; (unknown channels) channel.handlePacket is reached only for a non-nil channel, otherwise handleUnknownChannelPacket decides, all of whose returns are an error, a sent failure reply, or nil for a no-reply request; (exhaustiveness) for all 256 message codes the codes that onePacket routes to handleGlobalPacket decode (by evaluating decode's switch) to types that handleGlobalPacket's type switch handles, so its default panic is unreachable; the same for forwardList.handleChannels' channel-type switch against the registered types; (identifier roles) chanList.remove/getChan are never given a channel's remoteId and every PeersID / header id written by channel methods is remoteId; (shutdown) after mux.loop's read loop every path to return passes dropAll, and the closes of incomingChannels, incomingRequests and globalResponses; (length guards) the channel-id read is unreachable for packets shorter than 5 bytes. NOT decided: implicit panics on variable indices; blocking of the read loop on queued non-reply messages.",
+		explanation: "Decides connection-protocol structure in ssh/mux.go and ssh/channel.go by abstractly interpreting the body of the read loop, mux.onePacket, path- and context-sensitively with the same-package helpers it reaches expanded in place (values identified by provenance through helper parameters, branch conditions — if-chains, switches, type switches, bool/error helper results — folded into per-path knowledge about dynamic types, nil-ness, flag loads and the contents of channel.direction / channel.decided): (reply gating) on every path, every channel send into mux.globalResponses, and every send into channel.msg of a value whose dynamic type may be *channelRequestSuccessMsg / *channelRequestFailureMsg, is a non-blocking select and follows a Load() == true of the …Pending flag of the same object, wherever gate and send are factored; the flags are written (Store/Swap/CompareAndSwap, also through a pointer passed to a helper) only by the matching SendRequest, its closures, or unexported helpers called from nowhere else; (open replies) stores to remoteId / maxRemotePayload of a looked-up channel and, once the decoded message is known to be an OPEN_CONFIRMATION / OPEN_FAILURE, channel-list removal, window credit and delivery into channel.msg happen only on paths that found direction != channelInbound and decided == false, and such paths store decided = true before onePacket returns; if responseMessageReceived exists as a function it is additionally evaluated over the four (direction, decided) cases; (unknown channels) channel.handlePacket is entered only with a receiver known non-nil, and for getChan(id) == nil onePacket returns handleUnknownChannelPacket's result, all of whose returns (looking through helpers it returns) are an error, a sent reply, or nil behind WantReply == false; (exhaustiveness) for all 256 message codes the codes for which a call of handleGlobalPacket is reachable (in onePacket or a dispatch helper, finite-domain evaluation per function up the call chain) decode (by evaluating decode's switch) to types that handleGlobalPacket or its helpers type-assert, so its default panic is unreachable; the same for forwardList.handleChannels' channel-type comparisons against the registered types; (identifier roles) chanList.remove/getChan are never given a value that originates (through any call chain) from a channel's remoteId and every PeersID / header id written by channel methods is remoteId; (shutdown) by interpreting mux.loop, deferred calls included: every path to its return has executed dropAll and the closes of the receiver's incomingChannels, incomingRequests and globalResponses, in loop or in helpers; (length guards) the computation of the id given to getChan is unreachable for packets shorter than 5 bytes and reachable from 5 bytes on. NOT decided: implicit panics on variable indices; blocking of the read loop on queued non-reply messages; that SendRequest disarms the gate again.",
 		assumptions: []string{"packets handed to onePacket are non-empty (C24/C26: connectionState.readPacket rejects empty payloads)"},
 	})
-	tech("C36", "must-cross CFG rules, who-may-write tables, finite-domain enumeration of all 256 message codes through the routing and decode switches, identifier-role provenance")
+	tech("C36", "path- and context-sensitive abstract interpretation of the read loop with helpers expanded in place (c36_explore.go), who-may-write tables over all call chains, finite-domain enumeration of all 256 message codes through the routing and decode switches, identifier-role provenance")
 }
 
 func runC36(c *Ctx) {
 	sweepC36(c)
-	// ---- (a) reply gating
-	for _, spec := range []struct{ fn, flag, ch string }{
-		{"(*mux).handleGlobalPacket", "globalSentPending", "globalResponses"},
-		{"(*channel).handlePacket", "sentRequestPending", "msg"},
-	} {
-		f := c.fn("ssh", spec.fn)
-		if f == nil {
-			continue
-		}
-		var loads []ssa.CallInstruction
-		for _, ci := range callsNamed(f, "(*sync/atomic.Bool).Load") {
-			if _, fld, _, ok := fieldOf(ci.Common().Args[0]); ok && fld == spec.flag {
-				loads = append(loads, ci)
-			}
-		}
-		pass := callSuccess(loads, 0, isTrue)
-		var sels []ssa.Instruction
-		okNB := true
-		allInstrs(f, func(in ssa.Instruction) {
-			sel, ok := in.(*ssa.Select)
-			if !ok {
-				return
-			}
-			for _, st := range sel.States {
-				if st.Dir == 1 { // SendOnly
-					if _, fld, _, ok := fieldOf(st.Chan); ok && fld == spec.ch {
-						sels = append(sels, sel)
-						if sel.Blocking {
-							okNB = false
-						}
-					}
-				}
-			}
-		})
-		c.check(len(sels) == 1 && okNB, "C36.reply-nonblocking", spec.fn, f, "replies are delivered with a non-blocking select", fmt.Sprintf("expected one non-blocking select sending a reply into %s; found %d (non-blocking=%v)", spec.ch, len(sels), okNB))
-		c.mustCross("C36.reply-gated", spec.fn, f, sels, pass, spec.flag+".Load() == true")
-		// replies are not delivered by a plain blocking send anywhere else: a Send of the asserted Success/Failure value
-		allInstrs(f, func(in ssa.Instruction) {
-			snd, ok := in.(*ssa.Send)
-			if !ok {
-				return
-			}
-			if _, fld, _, ok := fieldOf(snd.Chan); !ok || fld != spec.ch {
-				return
-			}
-			t := snd.X.Type().String()
-			if mi, ok := snd.X.(*ssa.MakeInterface); ok {
-				t = mi.X.Type().String()
-			}
-			if strings.Contains(t, "RequestSuccessMsg") || strings.Contains(t, "RequestFailureMsg") {
-				c.fail("C36.reply-nonblocking", spec.fn+" blocking reply", snd, "a reply message is delivered with a blocking channel send from the read loop")
-			}
-		})
-	}
-	// flag writers
-	for _, f := range c.funcsOfPkg("ssh") {
-		for _, ci := range callsNamed(f, "(*sync/atomic.Bool).Store") {
-			_, fld, _, ok := fieldOf(ci.Common().Args[0])
-			if !ok || (fld != "globalSentPending" && fld != "sentRequestPending") {
-				continue
-			}
-			nm := fnName(f)
-			want := "(*mux).SendRequest"
-			if fld == "sentRequestPending" {
-				want = "(*channel).SendRequest"
-			}
-			c.check(nm == want || strings.HasPrefix(nm, want+"$"), "C36.flag-writers", fld+" stored in "+nm, ci, "only the matching SendRequest arms/disarms the reply gate", "the reply gate is written outside "+want)
-		}
-	}
-	// ---- (b) open replies
-	if f := c.fn("ssh", "(*channel).handlePacket"); f != nil {
-		rmr := callsNamed(f, "(*ssh.channel).responseMessageReceived")
-		pass := callSuccess(rmr, -1, isNil)
-		var targets []ssa.Instruction
-		for _, st := range storesTo(f, "channel", "remoteId") {
-			targets = append(targets, st)
-		}
-		for _, st := range storesTo(f, "channel", "maxRemotePayload") {
-			targets = append(targets, st)
-		}
-		for _, ci := range callsNamed(f, "(*ssh.chanList).remove") {
-			if t, fld, _, ok := fieldOf(ci.Common().Args[1]); ok && fld == "PeersID" && t == "channelOpenFailureMsg" {
-				targets = append(targets, ci)
-			}
-		}
-		c.check(len(rmr) == 2, "C36.open-reply", "handlePacket responseMessageReceived calls", f, "both OPEN_CONFIRMATION and OPEN_FAILURE consult it", fmt.Sprintf("%d calls of responseMessageReceived, expected 2", len(rmr)))
-		c.mustCross("C36.open-reply", "handlePacket channel state changes", f, targets, pass, "responseMessageReceived() == nil")
-	}
-	if f := c.fn("ssh", "(*channel).responseMessageReceived"); f != nil {
-		inb, _ := pkgConstInt(c, "ssh", "channelInbound")
-		bad := ""
-		for _, dir := range []int64{inb, 1 - inb} {
-			for dec := int64(0); dec < 2; dec++ {
-				e := newEnv()
-				e.bindField(f, "channel", "direction", dir)
-				e.bindField(f, "channel", "decided", dec)
-				e.solve(f)
-				got := false
-				for _, t := range acceptReturns(f, 0) {
-					if e.reach[t.Block()] {
-						got = true
-					}
-				}
-				want := dir != inb && dec == 0
-				if got != want {
-					bad = fmt.Sprintf("direction=%d decided=%d: accepted=%v", dir, dec, got)
-				}
-			}
-		}
-		sts := storesTo(f, "channel", "decided")
-		c.check(bad == "" && len(sts) == 1, "C36.open-reply", "responseMessageReceived", f, "accepts only the first reply on an outbound channel and records it", bad)
-	}
-	// ---- (c) unknown channel
-	if f := c.fn("ssh", "(*mux).onePacket"); f != nil {
-		gc := callsNamed(f, "(*ssh.chanList).getChan")
-		hp := callsNamed(f, "(*ssh.channel).handlePacket")
-		var nonNil []edge
-		for _, ci := range gc {
-			_, no := edgesWhere(callValue(ci), isNil)
-			nonNil = append(nonNil, no...)
-		}
-		c.mustCross("C36.unknown-channel", "(*mux).onePacket", f, callInstrs(hp), nonNil, "getChan(id) != nil")
-		// nil edge returns handleUnknownChannelPacket's verdict
-		okU := false
-		for _, r := range returnsOf(f) {
-			if call, ok := r.Results[0].(*ssa.Call); ok && short(calleeName(&call.Call)) == "(*ssh.mux).handleUnknownChannelPacket" {
-				okU = true
-			}
-		}
-		c.check(okU, "C36.unknown-channel", "(*mux).onePacket unknown id", f, "an unknown id is decided by handleUnknownChannelPacket", "packets for unknown channel ids are not passed to handleUnknownChannelPacket")
-		// length guard
-		var u32 ssa.CallInstruction
-		for _, ci := range calls(f, func(n string) bool { return strings.HasSuffix(n, ").Uint32") }) {
-			u32 = ci
-		}
-		if u32 != nil {
-			bad := ""
-			for _, n := range []int64{1, 2, 3, 4, 5, 100} {
-				e := newEnv()
-				e.bindLen(f, f.Params[0], n)
-				allInstrs(f, func(in ssa.Instruction) {
-					if call, ok := in.(*ssa.Call); ok && calleeName(&call.Call) == "builtin:len" {
-						if _, isEx := call.Call.Args[0].(*ssa.Extract); isEx {
-							e.bind(call, n)
-						}
-					}
-				})
-				e.solve(f)
-				if e.reach[u32.Block()] != (n >= 5) {
-					bad = fmt.Sprintf("packet of %d bytes: channel id read reachable=%v", n, e.reach[u32.Block()])
-				}
-			}
-			c.check(bad == "", "C36.length-guard", "(*mux).onePacket", u32, "channel id is read only from packets of at least 5 bytes", bad)
-		} else {
-			c.fail("C36.length-guard", "(*mux).onePacket", f, "channel id decoding not found")
-		}
-	}
-	if f := c.fn("ssh", "(*mux).handleUnknownChannelPacket"); f != nil {
-		okAll := true
-		for _, r := range returnsOf(f) {
-			v := r.Results[0]
-			switch {
-			case errNilness(v, r.Block(), 0) == neverNil:
-			case isNilConst(v):
-				// only for requests that want no reply: behind WantReply == false
-				var wr []edge
-				allInstrs(f, func(in ssa.Instruction) {
-					if u, ok := in.(*ssa.UnOp); ok {
-						if _, fld, _, ok := fieldOf(u); ok && fld == "WantReply" {
-							_, no := boolEdges(u, true)
-							wr = append(wr, no...)
-						}
-					}
-				})
-				cut := edgeSet{}
-				cut.addAll(wr)
-				if len(wr) == 0 || pathFromEntry(r, cut) {
-					okAll = false
-				}
-			default:
-				call, ok := v.(*ssa.Call)
-				if !ok || !(strings.HasSuffix(calleeName(&call.Call), ".sendMessage")) {
-					// error from decode
-					if ex, ok := v.(*ssa.Extract); !ok || !strings.HasSuffix(calleeName(&ex.Tuple.(*ssa.Call).Call), ".decode") {
-						okAll = false
-					}
-				}
-			}
-		}
-		c.check(okAll, "C36.unknown-channel", "(*mux).handleUnknownChannelPacket", f, "returns an error, a sent failure reply, or nil only for a no-reply request", "a packet for an unknown channel can be silently accepted")
-	}
+	// ---- (a) reply gating, (b) open replies, (c) dispatch of unknown channel ids: by interpretation of the read loop body
+	c36Protocol(c)
+	c36FlagWriters(c)
+	c36ResponseMessageReceived(c)
+	c36UnknownVerdict(c)
+	c36LengthGuard(c)
 	// ---- (d) exhaustiveness of handleGlobalPacket
 	c36Exhaustive(c)
 	// ---- identifier roles
-	for _, f := range c.funcsOfPkg("ssh") {
-		for _, ci := range callsNamed(f, "(*ssh.chanList).remove", "(*ssh.chanList).getChan") {
-			arg := ci.Common().Args[1]
-			_, fld, _, ok := fieldOf(arg)
-			c.check(!(ok && fld == "remoteId"), "C36.id-role", short(calleeName(ci.Common()))+" in "+fnName(f), ci, "indexed by a local identifier", "the channel list (indexed by OUR ids) is accessed with the peer's id (remoteId)")
-		}
-		if f.Signature.Recv() == nil || typeName(f.Signature.Recv().Type()) != "channel" {
-			continue
-		}
-		allInstrs(f, func(in ssa.Instruction) {
-			if st, ok := in.(*ssa.Store); ok {
-				if t, fld, _, ok := fieldOf(st.Addr); ok && fld == "PeersID" && t != "channel" {
-					_, vf, _, okv := fieldOf(st.Val)
-					c.check(okv && vf == "remoteId", "C36.id-role", t+".PeersID in "+fnName(f), st, "outgoing message addressed with the peer's channel id", "an outgoing channel message is addressed with something other than the peer's channel id")
-				}
-			}
-			if call, ok := in.(*ssa.Call); ok && strings.HasSuffix(calleeName(&call.Call), ").PutUint32") {
-				if _, vf, _, okv := fieldOf(call.Call.Args[len(call.Call.Args)-1]); okv && (vf == "localId" || vf == "remoteId") {
-					c.check(vf == "remoteId", "C36.id-role", "data packet header in "+fnName(f), call, "data packets carry the peer's channel id", "a data packet header carries our local id instead of the peer's id")
-				}
-			}
-		})
-	}
+	c36IdRoles(c)
 	// ---- (e) shutdown
-	if f := c.fn("ssh", "(*mux).loop"); f != nil {
-		var exitBlocks []*ssa.BasicBlock
-		var readCall ssa.CallInstruction
-		for _, ci := range callsNamed(f, "(*ssh.mux).onePacket") {
-			readCall = ci
-		}
-		for e := range backEdges(f) {
-			h := e.to()
-			// only the read loop: the loop that contains the onePacket call
-			if readCall == nil || !(reach([]*ssa.BasicBlock{h}, nil)[readCall.Block()] && reach([]*ssa.BasicBlock{readCall.Block()}, nil)[e.from]) || !h.Dominates(readCall.Block()) {
-				continue
-			}
-			// loop exit: successors of the header (or of blocks in the loop) outside the loop
-			loop := reach([]*ssa.BasicBlock{h}, nil)
-			_ = loop
-			if iff, ok := h.Instrs[len(h.Instrs)-1].(*ssa.If); ok {
-				_ = iff
-				for _, s := range h.Succs {
-					if !reach([]*ssa.BasicBlock{s}, nil)[e.from] {
-						exitBlocks = append(exitBlocks, s)
-					}
-				}
-			}
-		}
-		rets := returnsOf(f)
-		need := []struct {
-			what string
-			ins  []ssa.Instruction
-		}{
-			{"chanList.dropAll()", callInstrs(callsNamed(f, "(*ssh.chanList).dropAll"))},
-		}
-		for _, chf := range []string{"incomingChannels", "incomingRequests", "globalResponses"} {
-			var ins []ssa.Instruction
-			for _, ci := range calls(f, nameIs("builtin:close")) {
-				if _, fld, _, ok := fieldOf(ci.Common().Args[0]); ok && fld == chf {
-					ins = append(ins, ci)
-				}
-			}
-			need = append(need, struct {
-				what string
-				ins  []ssa.Instruction
-			}{"close(" + chf + ")", ins})
-		}
-		for _, n := range need {
-			ok := len(n.ins) == 1 && len(exitBlocks) > 0 && len(rets) > 0
-			if ok {
-				avoid := map[*ssa.BasicBlock]bool{n.ins[0].Block(): true}
-				r := reachAvoiding(exitBlocks, nil, avoid)
-				for _, rt := range rets {
-					if r[rt.Block()] {
-						ok = false
-					}
-				}
-			}
-			c.check(ok, "C36.shutdown", "(*mux).loop "+n.what, f, "on every path from the read loop's exit to return", "mux.loop can return after the read loop ends without "+n.what+" (waiters would hang)")
-		}
-		// each dropped channel is closed
-		cl := callsNamed(f, "(*ssh.channel).close")
-		c.check(len(cl) >= 1, "C36.shutdown", "(*mux).loop closes dropped channels", f, "every dropped channel is closed", "dropped channels are not closed at shutdown")
-	}
+	c36Shutdown(c)
 }
 
 func c36Exhaustive(c *Ctx) {
@@ -307,30 +41,27 @@ func c36Exhaustive(c *Ctx) {
 	if one == nil || dec == nil || hg == nil {
 		return
 	}
-	hgCalls := callsNamed(one, "(*ssh.mux).handleGlobalPacket")
-	if len(hgCalls) != 1 {
-		c.fail("C36.exhaustive", "handleGlobalPacket routing", one, "call site not found")
+	// the call(s) of handleGlobalPacket, in onePacket or in a helper it dispatches through
+	hgCalls := deepCallsNamed(one, "(*ssh.mux).handleGlobalPacket")
+	pk := c36PacketOf(c, one)
+	if len(hgCalls) == 0 || len(pk.reads) == 0 {
+		c.fail("C36.exhaustive", "handleGlobalPacket routing", one, "call site not found: onePacket (with its helpers) does not read a packet and hand it to handleGlobalPacket")
 		return
-	}
-	var pkt ssa.Value
-	for _, ci := range calls(one, func(n string) bool { return strings.HasSuffix(n, ".readPacket") }) {
-		for _, v := range resultN(ci.(*ssa.Call), 0) {
-			pkt = v
-		}
 	}
 	var routed []int64
 	for code := int64(0); code < 256; code++ {
-		e := newEnv()
-		e.bindIndexLoads(one, func(b ssa.Value) bool { return b == pkt }, 0, code)
-		e.solve(one)
-		if e.reach[hgCalls[0].Block()] {
-			routed = append(routed, code)
+		for _, hc := range hgCalls {
+			if pk.reachable(hc, -1, code, 0) {
+				routed = append(routed, code)
+				break
+			}
 		}
 	}
-	// types decode produces for those codes
+	// dynamic types handleGlobalPacket (or a helper of it) has a case for: type
+	// assertions on a decoded message (not on an error)
 	handled := map[string]bool{}
-	allInstrs(hg, func(in ssa.Instruction) {
-		if ta, ok := in.(*ssa.TypeAssert); ok {
+	deepInstrs(hg, func(in ssa.Instruction) {
+		if ta, ok := in.(*ssa.TypeAssert); ok && ta.X.Type().String() != "error" {
 			handled[ta.AssertedType.String()] = true
 		}
 	})
@@ -361,9 +92,11 @@ func c36Exhaustive(c *Ctx) {
 	// forwardList.handleChannels default panic: registered channel types vs cases
 	if f := c.fn("ssh", "(*forwardList).handleChannels"); f != nil {
 		cases := map[string]bool{}
-		allInstrs(f, func(in ssa.Instruction) {
+		deepInstrs(f, func(in ssa.Instruction) {
 			if bo, ok := in.(*ssa.BinOp); ok && bo.Op == token.EQL {
 				if s, ok := constString(bo.Y); ok {
+					cases[s] = true
+				} else if s, ok := constString(bo.X); ok {
 					cases[s] = true
 				}
 			}
